@@ -175,6 +175,12 @@ func runC15(w *World, r *Report) {
 
 	// fresh
 	sf := w.SSAFunc(fi)
+	if h, _ := w.registryIndexHelper(fi); h != nil {
+		// the registry is read in the helper the lookup delegates to: the allocation and the table entry are there
+		if hs := w.SSAFunc(h); hs != nil {
+			sf = hs
+		}
+	}
 	if sf == nil {
 		r.Fail(VUndecided, "fresh", fi.Key, "", "-", "no SSA form")
 		return
@@ -243,6 +249,30 @@ func (w *World) lookupRule(r *Report, fi *FuncInfo, maxW int64) {
 	// key folding: the map index expression must be strings.ToUpper(<name parameter>)
 	folded := false
 	var idxPos token.Pos
+	// the lookup split into a folding wrapper and an unexported helper that indexes the registry with its
+	// own parameter: the wrapper must hand the helper strings.ToUpper(name) in that position (the other
+	// callers of the helper are the business of the names rule)
+	if h, argIdx := w.registryIndexHelper(fi); h != nil {
+		ast.Inspect(fi.Decl.Body, func(n ast.Node) bool {
+			c, ok := n.(*ast.CallExpr)
+			if !ok || argIdx >= len(c.Args) {
+				return true
+			}
+			if fn := w.calleeOf(fi.Pkg.TypesInfo, c); fn == nil || fn.Origin() != h.Obj {
+				return true
+			}
+			idxPos = c.Pos()
+			if up, ok := unparen(c.Args[argIdx]).(*ast.CallExpr); ok && len(up.Args) == 1 {
+				f := (&Interp{info: fi.Pkg.TypesInfo}).callee(up)
+				if f != nil && f.Pkg() != nil && f.Pkg().Path() == "strings" && f.Name() == "ToUpper" {
+					if aid, ok := unparen(up.Args[0]).(*ast.Ident); ok && fi.Pkg.TypesInfo.Uses[aid] == fi.Pkg.TypesInfo.Defs[fi.Decl.Type.Params.List[0].Names[0]] {
+						folded = true
+					}
+				}
+			}
+			return true
+		})
+	}
 	ast.Inspect(fi.Decl.Body, func(n ast.Node) bool {
 		ix, ok := n.(*ast.IndexExpr)
 		if !ok {
@@ -404,7 +434,26 @@ func (w *World) lookupRule(r *Report, fi *FuncInfo, maxW int64) {
 		}
 		return true
 	})
-	for _, rt := range cs.FS.Rets {
+	rets := cs.FS.Rets
+	if h, _ := w.registryIndexHelper(fi); h != nil {
+		// the not-found exit is in the helper the lookup returns the results of
+		if hs := w.CtorSummary(h); hs != nil && hs.FS != nil {
+			rets = hs.FS.Rets
+			ast.Inspect(h.Decl.Body, func(m ast.Node) bool {
+				if as, ok := m.(*ast.AssignStmt); ok && len(as.Lhs) == 2 && len(as.Rhs) == 1 {
+					if ix, ok := unparen(as.Rhs[0]).(*ast.IndexExpr); ok {
+						if _, isMap := h.Pkg.TypesInfo.TypeOf(ix.X).Underlying().(*types.Map); isMap {
+							if id, ok := as.Lhs[1].(*ast.Ident); ok {
+								okName = id.Name
+							}
+						}
+					}
+				}
+				return true
+			})
+		}
+	}
+	for _, rt := range rets {
 		if rt.IsErr && len(rt.Vals) == 2 {
 			if _, isNil := rt.Vals[0].(NilV); isNil && (strings.Contains(rt.Guard, "!(haskey(") || okName != "" && strings.Contains(rt.Guard, okName)) {
 				okErr = true
@@ -434,10 +483,18 @@ func lookupNamesRule(w *World, r *Report) {
 		reg[e.Name] = true
 	}
 	n := 0
+	var rawHelper *FuncInfo
+	rawIdx := 0
+	if lf := w.Funcs["openflow13.FindFieldHeaderByName"]; lf != nil {
+		rawHelper, rawIdx = w.registryIndexHelper(lf)
+	}
 	for _, key := range w.sortedFuncKeys() {
 		fi := w.Funcs[key]
 		if fi.Decl.Body == nil {
 			continue
+		}
+		if rawHelper != nil && key == "openflow13.FindFieldHeaderByName" {
+			continue // the wrapper's own call of the helper is the casefold obligation
 		}
 		info := fi.Pkg.TypesInfo
 		params := map[types.Object]bool{}
@@ -453,14 +510,47 @@ func lookupNamesRule(w *World, r *Report) {
 				return true
 			}
 			fn := w.calleeOf(info, c)
-			if fn == nil || fn.Name() != "FindFieldHeaderByName" {
+			if fn == nil {
+				return true
+			}
+			raw := rawHelper != nil && fn.Origin() == rawHelper.Obj
+			if fn.Name() != "FindFieldHeaderByName" && !raw {
 				return true
 			}
 			site++
 			n++
 			inst := fmt.Sprintf("site#%d", site)
 			pos := w.Pos(c.Pos())
-			arg := unparen(c.Args[0])
+			argAt := 0
+			if raw {
+				argAt = rawIdx
+			}
+			if argAt >= len(c.Args) {
+				return true
+			}
+			arg := unparen(c.Args[argAt])
+			if raw {
+				// the helper indexes the registry with the name as given: only a spelling that is already the
+				// registered (upper-case) one may reach it
+				if tv, ok := info.Types[arg]; ok && tv.Value != nil && tv.Value.Kind() == constant.String {
+					if name := constant.StringVal(tv.Value); reg[name] {
+						r.OK("names", fi.Key, inst, pos, "constant registered name "+name+" (exact spelling) handed to the case-sensitive helper", true)
+					} else {
+						r.Fail(VViolation, "names", fi.Key, inst, pos, "the constant "+name+" handed to the case-sensitive helper "+rawHelper.Key+" is not a registered spelling")
+					}
+					return true
+				}
+				if up, ok := arg.(*ast.CallExpr); ok && len(up.Args) == 1 {
+					if f := w.calleeOf(info, up); f != nil && f.Pkg() != nil && f.Pkg().Path() == "strings" && f.Name() == "ToUpper" {
+						r.OK("names", fi.Key, inst, pos, "the name is upper-cased here before it reaches the case-sensitive helper", true)
+						return true
+					}
+				}
+				if id, isId := arg.(*ast.Ident); isId && params[info.Uses[id]] {
+					r.Fail(VViolation, "names", fi.Key, inst, pos, "the caller's spelling of the name is handed to "+rawHelper.Key+", which indexes the registry without case folding: a name that differs from the registered one only in case is not found through "+fi.Key)
+					return true
+				}
+			}
 			if tv, ok := info.Types[arg]; ok && tv.Value != nil && tv.Value.Kind() == constant.String {
 				name := strings.ToUpper(constant.StringVal(tv.Value))
 				if reg[name] {
@@ -545,4 +635,74 @@ func countAssignsTo(info *types.Info, body ast.Node, o types.Object) int {
 		return true
 	})
 	return n
+}
+
+// registryIndexHelper: when fi does not index the registry itself but calls an unexported function of its
+// package that does so with one of its own parameters as the key, that function and the parameter's index.
+func (w *World) registryIndexHelper(fi *FuncInfo) (*FuncInfo, int) {
+	indexes := func(g *FuncInfo) (bool, int) {
+		found, idx := false, -1
+		ast.Inspect(g.Decl.Body, func(n ast.Node) bool {
+			ix, ok := n.(*ast.IndexExpr)
+			if !ok {
+				return true
+			}
+			if id, ok := unparen(ix.X).(*ast.Ident); !ok || id.Name != "oxxFieldHeaderMap" {
+				return true
+			}
+			found = true
+			if kid, ok := unparen(ix.Index).(*ast.Ident); ok {
+				for i, p := range paramObjs(g) {
+					if p != nil && g.Pkg.TypesInfo.Uses[kid] == p && countAssignsTo(g.Pkg.TypesInfo, g.Decl.Body, p) == 0 {
+						idx = i
+					}
+				}
+			}
+			return true
+		})
+		return found, idx
+	}
+	if own, _ := indexes(fi); own {
+		return nil, 0
+	}
+	var h *FuncInfo
+	hi := 0
+	ast.Inspect(fi.Decl.Body, func(n ast.Node) bool {
+		c, ok := n.(*ast.CallExpr)
+		if !ok {
+			return true
+		}
+		fn := w.calleeOf(fi.Pkg.TypesInfo, c)
+		if fn == nil {
+			return true
+		}
+		g := w.FuncOf(fn.Origin())
+		if g == nil || g.Pkg != fi.Pkg || g.Decl.Body == nil || ast.IsExported(g.Decl.Name.Name) {
+			return true
+		}
+		if ok, idx := indexes(g); ok && idx >= 0 {
+			h, hi = g, idx
+		}
+		return true
+	})
+	return h, hi
+}
+
+// isRegistryLookup: fn is the by-name lookup of the field registry, or the unexported helper it delegates
+// to (which takes the name in the registered spelling).
+func (w *World) isRegistryLookup(fn *types.Func) bool {
+	if fn == nil {
+		return false
+	}
+	lf := w.Funcs["openflow13.FindFieldHeaderByName"]
+	if lf == nil {
+		return false
+	}
+	if fn.Origin() == lf.Obj {
+		return true
+	}
+	if h, idx := w.registryIndexHelper(lf); h != nil && idx == 0 && fn.Origin() == h.Obj {
+		return true
+	}
+	return false
 }
